@@ -2,7 +2,7 @@
    Statements only; proofs in AccountProofs.v, FracdetProofs.v and CovpixProofs.v (on top of the C01/C04
    development). *)
 From Coq Require Import QArith.
-From HS Require Import Prelude Cov Map Spec Ops Spec2 Params AtFold MapProofs UpdateProofs HistoryProofs LayoutProofs AccountProofs OpsProofs RebuildProofs FracdetProofs CovpixProofs Exec ExecProofs.
+From HS Require Import Prelude Cov Map Spec Ops Spec2 Params AtFold MapProofs UpdateProofs HistoryProofs LayoutProofs AccountProofs OpsProofs RebuildProofs FracdetProofs CovpixProofs CacheProofs Exec ExecProofs.
 Open Scope Z_scope.
 
 Section C02.
@@ -79,6 +79,37 @@ Theorem C02_single_coverage_pixel_map_is_the_restriction :
     abs V (p_dv P) (single_covpix V m c) = d_single_covpix V (p_dv P) (abs V (p_dv P) m) c.
 Proof. exact (single_covpix_spec P). Qed.
 
+(* the memo is empty (hence never stale) after every other mutating or map-producing operation of the
+   model: scalar operators, invert / boolean constants, apply_mask, pixel-range updates, boolean
+   map-with-map operators (both forms), upgrade, copy — the next query recounts the new state *)
+Theorem C02_memo_is_dropped_by_every_operation :
+  forall (m b : smap V) g bad o rows value na f vfalse r m',
+    cache_ok P (map_valid V (p_valid P) g m) /\
+    cache_ok P (tail_map V g m) /\
+    (apply_mask V (p_valid P) (p_dv P) bad m = Some m' -> cache_ok P m') /\
+    cache_ok P (update_ranges V (p_dv P) (p_vadd P) (p_vor P) (p_vand P) (p_vzero P) (p_is_sent P)
+                              (p_sent_nonzero P) m o rows value na) /\
+    cache_ok P (bool_map_op_inplace V (p_dv P) f m b) /\
+    cache_ok P (bool_map_op_copy V vfalse f m b) /\
+    cache_ok P (upgrade V r m) /\
+    cache_ok P (copy_map V m).
+Proof.
+  intros m b g bad o rows value na f vfalse r m'.
+  repeat split.
+  - apply (scalar_operator_cache_ok P).
+  - apply (invert_cache_ok P).
+  - apply (apply_mask_cache_ok P).
+  - apply (range_update_cache_ok P).
+  - apply (boolean_in_place_cache_ok P).
+  - apply (boolean_copy_cache_ok P).
+  - apply (upgrade_cache_ok P).
+  - apply (copy_cache_ok P).
+Qed.
+
+Theorem C02_query_after_any_operation_recounts :
+  forall (m' : smap V), cache_ok P m' -> snd (n_valid V (p_valid P) m') = count_valid V (p_valid P) m'.
+Proof. exact (query_after_any_operation P). Qed.
+
 End C02.
 
 Example C02_hypotheses_satisfiable :
@@ -98,4 +129,6 @@ Print Assumptions C02_fracdet_counts_the_valid_children.
 Print Assumptions C02_fracdet_map_is_well_formed.
 Print Assumptions C02_per_coverage_pixel_listing_is_the_valid_set_of_that_pixel.
 Print Assumptions C02_single_coverage_pixel_map_is_the_restriction.
+Print Assumptions C02_memo_is_dropped_by_every_operation.
+Print Assumptions C02_query_after_any_operation_recounts.
 Print Assumptions C02_hypotheses_satisfiable.
